@@ -109,7 +109,7 @@ pub fn run(prop: &str, a: &Args, rep: &mut Report) {
         if cfg!(miri) {
             break; // far too slow under the interpreter-of-the-interpreter
         }
-        for variant in 0..4u64 {
+        for variant in 0..5u64 {
             // spread (length, variant) cells over shards
             li += 1;
             if li % a.nshards != a.shard % a.nshards {
